@@ -342,7 +342,10 @@ SnapOK(refs, v, w, D, exact) ==
 DejitterClauses(e) ==
   LET D == e.args.D  refs == RefTimes(e.arg)  es == e.pre.ents  isI == e.pre.kind = "I"
       r == e.ret.ents
-      snapped(v) == IF refs # {} /\ DistTo(refs, v) <= D THEN {w \in refs : AbsV(w - v) = DistTo(refs, v)} ELSE {v}
+      \* the times v may legitimately become (exactly maxDifference away under inexact arithmetic: moved or not)
+      snapped(v) == IF refs # {} /\ DistTo(refs, v) <= D
+                    THEN {w \in refs : AbsV(w - v) = DistTo(refs, v)} \cup (IF ~e.exactfp /\ DistTo(refs, v) = D THEN {v} ELSE {})
+                    ELSE {v}
       \* could every choice of nearest references yield an ill-formed tier? then raising is required; if some
       \* choice is well-formed the call may return it (ties are loose)
       mustCollapse == isI /\ \E i \in Idx(es) : \A s2 \in snapped(es[i].s), e2 \in snapped(es[i].e) : s2 >= e2
